@@ -27,6 +27,18 @@ for d in sorted(glob.glob(os.path.join(ROOT, "seeded", "*"))):
         else:
             res.append("%s: MISSED" % k)
     hist = m.get("history", "")
+    if isinstance(hist, list):
+        hs = []
+        for h in hist:
+            if isinstance(h, str):
+                hs.append(h)
+            elif isinstance(h, dict):
+                for k, v in h.get("checks", {}).items():
+                    if v.get("violation"):
+                        hs.append("earlier run of %s: VIOLATION %s" % (k, "without a failing input" if "no-failing-input-found" in v["violation"][0] else "with a failing input"))
+                    else:
+                        hs.append("earlier run of %s: MISSED (check strengthened since)" % k)
+        hist = "; ".join(hs)
     clean = lambda s: (s or "").replace("|", "/").replace("\n", " ")
     out.append("| %s | %s | %s | %s%s |" % (os.path.basename(d), clean(am.get("summary"))[:400], clean(am.get("needs_to_manifest"))[:300],
                                            "; ".join(res), (" — " + hist) if hist else ""))
